@@ -21,6 +21,7 @@ NestKinds      == {"UL", "OL", "LI", "BQ", "PRE"}   \* CanBeNested: emit Tag sta
 HiddenKinds    == {"HID", "HIN"}             \* hidden block / hidden inline container
 SkipSilent     == {"SKS"}                    \* script, style, noscript, svg, unknown iframe, link
 SkipFlush      == {"SKF"}                    \* form, button, select, textarea, object, embed, applet
+SocialKinds    == {"SHR"}                    \* a social / sharing box: a visible block the converter leaves out without a word
 MediaKinds     == {"IMG", "VID", "EMB"}      \* leaf media: image, video, recognised embed frame
 EmbedBlock     == {"TW"}                     \* tweet blockquote: moved into an embed placeholder
 ChromeKinds    == {"LNK"}                    \* leaf: a link-dense cluster (boilerplate-looking text)
@@ -30,10 +31,10 @@ OtherLeaf      == {"BR", "CMT"}              \* line break, comment
 
 AllKinds == TextKinds \cup InlineKinds \cup BlockKinds \cup NestKinds \cup HiddenKinds
             \cup SkipSilent \cup SkipFlush \cup MediaKinds \cup FigKinds \cup TableKinds
-            \cup OtherLeaf \cup EmbedBlock \cup ChromeKinds
+            \cup OtherLeaf \cup EmbedBlock \cup ChromeKinds \cup SocialKinds
 
 ContainerKinds == InlineKinds \cup BlockKinds \cup NestKinds \cup HiddenKinds
-                  \cup SkipSilent \cup SkipFlush \cup FigKinds \cup TableKinds \cup EmbedBlock
+                  \cup SkipSilent \cup SkipFlush \cup FigKinds \cup TableKinds \cup EmbedBlock \cup SocialKinds
 
 IsContainer(k) == k \in ContainerKinds
 HasWords(k)    == k \in {"T", "t"}
